@@ -132,6 +132,11 @@ def run(seed=0, tier='quick', hints=None, broken=False):
             check_lattice('CropAndPad', [c], case, viol)
             evals += 1
             seen.add(('CropAndPad-sweep', repr(c['args'].get('px', c['args'].get('percent')))))
+    for case in RC.sweep(rng) * (1 if tier == 'quick' else 6):
+        case = dict(case, seed=rng.randint(0, 10 ** 6))
+        check_rotation(case, viol)
+        evals += 1
+        seen.add(('rotation-sweep', case['cls'], case['plane'], bool(case.get('crop_to_border'))))
     for _ in range(n * 2):
         case = RC.gen_case(rng)
         check_rotation(case, viol)
